@@ -22,12 +22,14 @@ use std::time::Duration;
 
 pub const CLI: &str = "/verif/target/cli/debug/gamedig_cli";
 
-const CLASSES: [(&str, &str); 7] = [
+const CLASSES: [(&str, &str); 8] = [
     ("plain", "Plain"),
     ("markup", "<b>&amp;\"'</b> ]]> <!--"),
     ("control", "ctl\u{1}\u{7}\u{1f}\u{7f}x"),
     // the edges of the ranges XML 1.1 only allows as references (01-08, 0B, 0C, 0E-1F, 7F-84, 86-9F) and their neighbours
     ("control-edges", "e\u{8}\t\u{b}\u{c}\u{e}\u{84}\u{85}\u{86}\u{9f}\u{a0}x"),
+    // line ends: a parser normalises literal CR, CR LF, NEL and LINE SEPARATOR to LF, so they must be written as references
+    ("line-ends", "l\r1\r\n2\n3\u{85}4\u{2028}5\r"),
     ("non-ascii", "Zürich 東京 𝄞"),
     ("space", " two  words "),
     ("empty", ""),
@@ -411,7 +413,19 @@ pub fn xml_leaves(doc: &str) -> Result<Vec<(String, String)>, String> {
             if stack.is_empty() && !c.is_whitespace() {
                 return Err(format!("text outside the root element: {c:?}"));
             }
-            text.push(c);
+            // end-of-line handling (XML 1.0 2.11 / XML 1.1 2.11): a processor hands the application #xA for a literal #xD #xA,
+            // #xD and, in 1.1, for #xD #x85, #x85 and #x2028 - so these characters only survive as character references
+            let next = b.get(i + 1).copied();
+            if c == '\r' {
+                if next == Some('\n') || (version11 && next == Some('\u{85}')) {
+                    i += 1;
+                }
+                text.push('\n');
+            } else if version11 && (c == '\u{85}' || c == '\u{2028}') {
+                text.push('\n');
+            } else {
+                text.push(c);
+            }
             i += 1;
         }
     }
